@@ -297,8 +297,8 @@ func (d *Decoder) decodeRawVal(highThreeBits, lowFiveBits byte, additional []byt
 			return nil, err
 		}
 
-		b := make([]byte, length)
-		if _, err := io.ReadFull(d.r, b); err != nil {
+		b, err := readBytes(d.r, uint64(length))
+		if err != nil {
 			return nil, err
 		}
 		return append(head, b...), nil
@@ -330,6 +330,27 @@ func (d *Decoder) decodeRawVal(highThreeBits, lowFiveBits byte, additional []byt
 	}
 
 	panic("unreachable")
+}
+
+// readBytes reads exactly n bytes from r. The buffer grows as data arrives, so
+// a length that the input merely claims is never allocated up front.
+func readBytes(r io.Reader, n uint64) ([]byte, error) {
+	if n > math.MaxInt64 {
+		return nil, fmt.Errorf("byte array exceeds max size: %d", n)
+	}
+	if n <= 4096 {
+		b := make([]byte, n)
+		_, err := io.ReadFull(r, b)
+		return b, err
+	}
+	b, err := io.ReadAll(io.LimitReader(r, int64(n)))
+	if err != nil {
+		return nil, err
+	}
+	if uint64(len(b)) < n {
+		return nil, io.ErrUnexpectedEOF
+	}
+	return b, nil
 }
 
 func decodeLen(highThreeBits, lowFiveBits byte, additional []byte) (int, error) {
@@ -571,8 +592,8 @@ func (d *Decoder) decodeByteSlice(rv reflect.Value, additional []byte) error {
 	if length > math.MaxInt || length >= MaxArrayDecodeLength {
 		return fmt.Errorf("byte array exceeds max size: %d", length)
 	}
-	bs := make([]byte, length)
-	if _, err := io.ReadFull(d.r, bs); err != nil {
+	bs, err := readBytes(d.r, length)
+	if err != nil {
 		return fmt.Errorf("error reading byte/text string: %w", err)
 	}
 
@@ -753,9 +774,9 @@ func (d *Decoder) decodeArrayToSlice(rv reflect.Value, additional []byte) error 
 	slice := rv
 	switch slice.Kind() {
 	case reflect.Slice:
-		// Set slice to the correct length
-		slice.Grow(int(length))
-		slice.SetLen(int(length))
+		// Start empty and grow as items are decoded, so that memory is
+		// allocated for items which are present, not for a claimed length
+		slice.SetLen(0)
 
 	case reflect.Array:
 		// Check array is long enough and clear extra elements
@@ -768,22 +789,30 @@ func (d *Decoder) decodeArrayToSlice(rv reflect.Value, additional []byte) error 
 		}
 
 	case reflect.Interface:
-		slice.Set(reflect.MakeSlice(slice.Elem().Type(), int(length), int(length)))
-		slice = slice.Elem()
+		// The slice held by an interface is not settable, so grow a new one
+		slice = reflect.New(slice.Elem().Type()).Elem()
+		slice.Set(reflect.MakeSlice(slice.Type(), 0, 0))
 
 	default:
 		return fmt.Errorf("%w: expected a slice type",
 			ErrUnsupportedType{typeName: rv.Type().String()})
 	}
 
-	// Decode each item into the correctly sized slice
+	// Decode each item, growing slices as needed
 	itemType := slice.Type().Elem()
 	for i := range int(length) {
 		newVal := reflect.New(itemType)
 		if err := d.Decode(newVal.Interface()); err != nil {
 			return fmt.Errorf("error decoding array item %d: %w", i, err)
 		}
-		slice.Index(i).Set(newVal.Elem())
+		if slice.Kind() == reflect.Slice {
+			slice.Set(reflect.Append(slice, newVal.Elem()))
+		} else {
+			slice.Index(i).Set(newVal.Elem())
+		}
+	}
+	if rv.Kind() == reflect.Interface {
+		rv.Set(slice)
 	}
 
 	return nil
